@@ -16,14 +16,14 @@ LEVEL = "exploration"
 RULE = ("case = a history of 2..6 RE(plan, **kw) calls on one engine, each opening one run; the four metadata sources "
         "(persistent RE.md, plan identity, open_run kwargs, call kwargs) are seeded dictionaries over a small key pool so "
         "that keys overlap in every pattern, incl. 'sample' and 'scan_id' overrides; md_normalizer in {identity, add key, "
-        "rename key, drop key, whitelist (often empty result)}; a later subscriber raising on 'start' in some calls; md_validator accepts or rejects (by a marker in the merged md); scan_id_source in "
+        "rename key, drop key, whitelist (often empty result)}; a later subscriber raising on 'start' in some calls; md_validator accepts or rejects (by a marker in the merged md), or the normalizer itself refuses by raising; scan_id_source in "
         "{default, custom sync, custom async}; oracle: RunStart minus uid/time == normalizer(persistent + plan identity + "
         "open_run md + call kw, later wins); with the default source scan_ids of consecutive OPENED runs differ by exactly "
         "1 and equal RE.md['scan_id']; a rejecting validator raises at the open_run yield and no RunStart is emitted; "
         "distinct = (key-overlap pattern, normalizer, validator history shape, scan_id source)")
 ASSUMPTIONS = ["reserved keys uid/time are not supplied; schema-typed keys are only given schema-valid values"]
 REQUIRED_COUNTERS = {"histories": 200, "starts_checked": 500, "rejected_opens": 100, "overlapping_keys": 500,
-                     "accept_after_reject": 50, "start_emission_faults": 30, "empty_normalizer_results": 5}
+                     "accept_after_reject": 50, "start_emission_faults": 30, "empty_normalizer_results": 5, "rejected_by_normalizer": 30}
 MANIFEST = {
     "technique": "reference merge model vs RunStart documents of the real engine over seeded multi-call histories with "
                  "overlapping metadata sources, validators and normalizers",
@@ -97,7 +97,13 @@ def run_case(case):
                 raise ValueError("rejected by validator")
 
         kw["md_validator"] = validator
-        kw["md_normalizer"] = norm
+
+        def norm_or_refuse(md, _norm=norm):
+            if md.get("reject_in_normalizer"):
+                raise ValueError("rejected by normalizer")
+            return _norm(md)
+
+        kw["md_normalizer"] = norm_or_refuse
         if src_kind == "sync":
             kw["scan_id_source"] = lambda md: md.get("scan_id", 0) + 10
         elif src_kind == "async":
@@ -117,7 +123,7 @@ def run_case(case):
         ncalls = rng.randint(2, 6)
         problems = []
         counters = {"histories": 1, "starts_checked": 0, "rejected_opens": 0, "overlapping_keys": 0, "accept_after_reject": 0,
-                    "start_emission_faults": 0, "empty_normalizer_results": 0}
+                    "start_emission_faults": 0, "empty_normalizer_results": 0, "rejected_by_normalizer": 0}
         prev_scan_id = None
         prev_was_reject = False
         shape = ""
@@ -129,7 +135,10 @@ def run_case(case):
             call_md = rand_md(rng, f"call{c}", allow_scan_id=True)
             reject = rng.random() < 0.3
             if reject:
-                (open_md if rng.random() < 0.5 else call_md)["reject"] = True
+                # refused by the validator, or (a third of the time) by the NORMALIZER raising on it
+                marker = "reject" if rng.random() < 0.67 else "reject_in_normalizer"
+                (open_md if rng.random() < 0.5 else call_md)[marker] = True
+                counters["rejected_by_normalizer"] += int(marker != "reject")
             seen = {}
 
             def the_plan():
